@@ -295,3 +295,34 @@ REPLAYERS["C18.bounded"] = r_c18_bounded
 REPLAYERS["pyanalyze.name_check_visitor.NameCheckVisitor.prepare_constructor_kwargs"] = lambda rec: (lambda m: (bool(m), m or "command-line values win"))(search_cmdline())
 
 REPLAYERS["C11.layers"] = lambda rec: (lambda m: (bool(m), m or "error-code enablement follows command line > override > top level > default on the generated configurations"))(search_error_code_layers())
+
+
+def r_options_lookup(rec):
+    """Options._get_value_for_no_default / get_value_for / is_error_code_enabled on real option lists: configured instances are
+    consulted in their (sorted) order before the built-in default, for this module's path"""
+    import itertools
+    from pyanalyze.error_code import ErrorCode
+    from pyanalyze.options import ConfigOption, Options
+    from pyanalyze.signature import MaximumPositionalArgs
+    code = ErrorCode.undefined_name
+    code_opt = ConfigOption.registry[code.name]
+    for opt, vals, dflt in ((MaximumPositionalArgs, [3, 5], MaximumPositionalArgs.default_value), (code_opt, [True, False], code_opt.default_value)):
+        layers = [((), False), (("a",), False), (("a", "b"), False), ((), True)]
+        for r in range(0, 3):
+            for chosen in itertools.combinations(range(len(layers)), r):
+                insts = [opt(vals[k % 2], layers[i][0], from_command_line=layers[i][1]) for k, i in enumerate(chosen)]
+                opts = Options.from_option_list(insts)
+                for mp in [(), ("a",), ("a", "b"), ("c",)]:
+                    ordered = sorted(insts, key=lambda i: (not i.from_command_line, i.priority, -len(i.applicable_to)))
+                    app = [i for i in ordered if mp[: len(i.applicable_to)] == i.applicable_to]
+                    want = app[0].value if app else dflt
+                    m = opts.for_module(mp)
+                    got = [m._get_value_for_no_default(opt), m.get_value_for(opt)] + ([m.is_error_code_enabled(code)] if opt is code_opt else [])
+                    if any(g != want for g in got):
+                        return True, (f"{opt.name}: instances {[(i.value, i.applicable_to, i.from_command_line) for i in insts]}, module {'.'.join(mp) or '<top>'}: "
+                                      f"_get_value_for_no_default / get_value_for / is_error_code_enabled = {got}, the first applicable instance (else the default) gives {want!r}")
+    return False, "option look-up returns the first applicable configured instance, else the default, on the generated option lists"
+
+
+for _q in ("Options._get_value_for_no_default", "Options.get_value_for", "Options.is_error_code_enabled"):
+    REPLAYERS["pyanalyze.options." + _q] = r_options_lookup
